@@ -25,6 +25,18 @@ PROPS = {
              "with a from-scratch two-pass evaluation of its window (bound: DESIGN 5.1). distinct = (function, type combo, "
              "len bucket, window, min_periods, path, value class/null pattern) with >=1 value-compared position",
     ),
+    "C03": dict(
+        bin="c03",
+        quick=NATIVE_Q, thorough=NATIVE_T,
+        floors={"value.ts_vmin": 100, "value.ts_vargmax": 100, "value.ts_vrank[pct=1,rev=1]": 100, "value.ts_vzscore": 50,
+                "value.ts_vminmaxnorm": 50, "spy.rescans_observed": 50, "state.extreme_expired": 50,
+                "state.extreme_expired_newest_null": 5, "state.all_null_window": 20, "state.tied_extreme": 50},
+        rule="sweep (len 1..N x window 1..len+2 x min_periods {None,0..w} x 10 null patterns) + random (len<=90) + long monotone/plateau "
+             "histories; value classes emphasise tiny alphabets, monotone runs, plateaus; inputs Vec, SpyVecFast (rescans observable), "
+             "SpyVec/VecDeque/OptIter (default driver body), int/float/Option element types; every output position compared exactly "
+             "(min,max,arg,rank) or within the DESIGN 5.1 bound (zscore) / 2ulp (minmaxnorm) with a brute-force window evaluation. "
+             "distinct = (function, type combo, len bucket, window, min_periods, path, value class/null pattern)",
+    ),
 }
 
 for _k in list(PROPS):
